@@ -289,25 +289,40 @@ Fixpoint changes_match (a b : atree) (cs : list change) (os : list ochange) : bo
 Definition otree_eqb (x y : option tree) : bool := option_eqb tree_eqb x y.
 
 (** [CDiff a b os res]: Diff(a, b) on the real code returned [os]; ApplyChange of these
-    changes to a fresh copy of a returned the tree [res] (None = an error). *)
+    changes to a fresh copy of a returned an error ([None]) or a node with interned CID
+    [fst] whose DAG, read back from the DAGService, is [snd] ([None] when a block of it
+    is missing there: the Editor drops a new intermediate node from its scratch store
+    when another node with the same CID is modified later; the root CID is unaffected). *)
 Inductive case :=
-| CDiff (a b : atree) (os : list ochange) (res : option atree).
+| CDiff (a b : atree) (os : list ochange) (res : option (Z * option atree)).
 
-Definition model_ok (fl : bool) (a b : atree) (os : list ochange) (res : option atree) : bool :=
+Definition res_matches (b : atree) (m : option tree) (res : option (Z * option atree)) : bool :=
+  match m, res with
+  | None, None => true
+  | Some t, Some (rid, rt) =>
+      Bool.eqb (rid =? aid b) (tree_eqb t (erase b)) &&
+      match rt with
+      | Some r => (aid r =? rid) && tree_eqb t (erase r)
+      | None => true
+      end
+  | _, _ => false
+  end.
+
+Definition model_ok (fl : bool) (a b : atree) (os : list ochange) (res : option (Z * option atree)) : bool :=
   let cs := diff fl (erase a) (erase b) in
-  changes_match a b cs os &&
-  otree_eqb (apply_list (erase a) cs) (option_map erase res).
+  changes_match a b cs os && res_matches b (apply_list (erase a) cs) res.
 
 Definition check_case (c : case) : verdict :=
   match c with
   | CDiff a b os res =>
       let ta := erase a in
       let tb := erase b in
-      let sane := ids_consistent (subtrees a ++ subtrees b ++ match res with Some r => subtrees r | None => [] end) in
+      let sane := ids_consistent (subtrees a ++ subtrees b ++
+                                  match res with Some (_, Some r) => subtrees r | _ => [] end) in
       (* the property: the result has the CID of b; Diff(a, a) is empty.  Trees with raw
          leaves are outside the property (ApplyChange refuses them with ErrNotProtobuf). *)
       let spec_ok :=
-        (has_raw ta || has_raw tb || match res with Some r => aid r =? aid b | None => false end) &&
+        (has_raw ta || has_raw tb || match res with Some (rid, _) => rid =? aid b | None => false end) &&
         (negb (aid a =? aid b) || is_nil os) in
       let on := model_ok true a b os res in
       let off := model_ok false a b os res in
